@@ -78,6 +78,11 @@ func Check09(c Case09, r *core.Rec) {
 		// an unrelated call with the byte-identical host text under a non-special scheme comes first:
 		// the result for the special URL must not depend on it
 		_, _ = url.Parse("foo://" + s + "/")
+		// … and the identical URL through a lax parser: what a differently configured parser made of
+		// this host must not leak into the default parser
+		for _, ip := range interferingParsers {
+			_, _ = ip.Parse(c.Scheme + "://" + s + "/")
+		}
 		u, err := url.Parse(c.Scheme + "://" + s + "/")
 		if err != nil || u == nil {
 			outs[i] = outcome{err: errString(err)}
